@@ -142,11 +142,11 @@ let run_script (toks : string list) : string =
            | _ -> failwith "burst") (String.split_on_char ',' parts)
      | ["X"; "raw"; h] ->
          (* the codec model decides what the bytes are: an error ends the driver, an incomplete frame wedges the stream like B *)
-         if running () && not !partial then (match decode_inner' (repaired_d max_depth) (bytes_of_hex h) with
-           | DErr -> apply (DrvEnd EndedErr) | DPanic -> apply (DrvEnd EndedPanic) | DNeed -> partial := true
-           | DFrame (mid, op, _, _) ->
-               let kind = (match op with C (_, id, _) | P (_, id, _) -> (match int_of_n id with 4 -> REntry | 19 -> RRef | 25 -> RInter | 5 -> RDone | _ -> ROther)) in
-               apply (ServerSend { r_mid = z_of_int (int_of_n mid); r_kind = kind; r_tok = nat_of_int 0 }))
+         if running () && not !partial then begin
+           let (evs, left) = receive_buf max_depth [] (bytes_of_hex h) in
+           List.iter (fun e -> if running () then apply e) evs;
+           (match left with Some (_ :: _) -> partial := true | _ -> ())
+         end
      | ["X"; "eof"] -> if running () then apply (DrvEnd (if !partial then EndedErr else EndedOk))
      | ["X"; "garbage"] | ["X"; "rderr"] -> if running () then apply (DrvEnd EndedErr)
      | ["X"; "wrerr"] -> wr_armed := true
